@@ -861,6 +861,41 @@ def rule_r4(chk, prog):
                                         else set()))
                         else:
                             res.append(('unknown', unparse(row), set()))
+                elif isinstance(v, ast.Call) and isinstance(
+                        v.func, ast.Attribute) and v.func.attr == 'get' \
+                        and isinstance(v.func.value, ast.Name) and len(
+                            m.globals.get(v.func.value.id, [])) == 1 and \
+                        isinstance(m.globals[v.func.value.id][0],
+                                   ast.Dict) and len(v.args) == 2:
+                    # ew, sw = TABLE.get(<name>, DEFAULT): the rows, and the
+                    # default for every short name the table does not list
+                    tab = m.globals[v.func.value.id][0]
+                    listed = set()
+                    for k_, row in zip(tab.keys, tab.values):
+                        if isinstance(k_, ast.Constant) and isinstance(
+                                row, (ast.Tuple, ast.List)) and idx < len(
+                                    row.elts) and isinstance(
+                                        row.elts[idx], ast.Constant):
+                            listed.add(k_.value)
+                            res.append(('const', row.elts[idx].value,
+                                        {k_.value} if k_.value in FP_REF
+                                        else set()))
+                        else:
+                            res.append(('unknown', unparse(row), set()))
+                    dfl = v.args[1]
+                    if isinstance(dfl, ast.Name) and len(m.globals.get(
+                            dfl.id, [])) == 1:
+                        dfl = m.globals[dfl.id][0]
+                    if isinstance(dfl, (ast.Tuple, ast.List)) and idx < len(
+                            dfl.elts) and isinstance(dfl.elts[idx],
+                                                     ast.Constant):
+                        rest = set(FP_REF) - listed
+                        # an assert / test in front narrows the rest
+                        guard = short_name_at(fn, st)
+                        res.append(('const', dfl.elts[idx].value,
+                                    (rest & guard) if guard else rest))
+                    else:
+                        res.append(('unknown', unparse(v.args[1]), set()))
                 else:
                     res.append(('unknown', unparse(v), set()))
             return res or [('unknown', e.id, set())]
